@@ -134,6 +134,148 @@ def decl_case(args) -> dict:
         shutil.rmtree(root, ignore_errors=True)
 
 
+def scalar_objects() -> list[tuple[str, object]]:
+    return [("py float 2.7", 2.7), ("np.float64 2.7", np.float64(2.7)),
+            ("py float 2.0", 2.0), ("py int 3", 3), ("py bool True", True),
+            ("np.float64 1e300", np.float64(1e300)),
+            ("py int 16777217", 16777217), ("py int 2**40", 2**40),
+            ("py int -1", -1), ("np.int64 2**40", np.int64(2**40)),
+            ("np.float32 2.5", np.float32(2.5)), ("np.int8 5", np.int8(5)),
+            ("np.uint8 200", np.uint8(200)), ("py float nan", float("nan")),
+            ("str", "x"), ("bytes", b"x"), ("None", None),
+            ("complex", 1 + 2j), ("0-d float64 2.7", np.array(2.7)),
+            ("0-d int64 300", np.array(300))]
+
+
+def scalar_case(args) -> dict:
+    """Rank-0 attribute: scalar objects of every kind, as the first and as
+    the last write of a shard, between valid writes."""
+    fmt, dtype = args
+    from sedpack.io import Dataset, Metadata
+    from sedpack.io.metadata import Attribute, DatasetStructure
+    out = {"fmt": fmt, "dtype": dtype, "shape": [], "bad": [],
+           "accepted": 0, "rejected": 0, "cases": 0}
+    box = core.fresh_dir("scal")
+    try:
+        n = 0
+        for sname, sval in scalar_objects():
+            for pos in (0, 1):
+                n += 1
+                root = box / f"d{n}"
+                struct = DatasetStructure(
+                    saved_data_description=[
+                        Attribute(name="a", dtype=dtype, shape=())
+                    ],
+                    compression="", examples_per_shard=2,
+                    shard_file_type=fmt, hash_checksum_algorithms=("md5",))
+                ds_ = Dataset.create(path=root, metadata=Metadata(),
+                                     dataset_structure=struct)
+                seq = [("ok", natural(dtype, (), 1)),
+                       ("ok", natural(dtype, (), 2))]
+                seq.insert(pos, ("s", sval))
+                seq.append(("ok", natural(dtype, (), 3)))
+                kept = []
+                desc = (f"{sname} written as {'first' if pos == 0 else 'last'}"
+                        f" example of a shard")
+                try:
+                    with ds_.filler() as f:
+                        for kind, v in seq:
+                            try:
+                                f.write_example(values={"a": v},
+                                                split="train")
+                                kept.append((kind, v))
+                                out["accepted" if kind == "s" else
+                                    "cases"] += 1
+                            except Exception:  # pylint: disable=broad-except
+                                if kind == "ok":
+                                    out["bad"].append(
+                                        ("valid-rejected",
+                                         f"{desc}: a valid write after it "
+                                         f"was rejected"))
+                                else:
+                                    out["rejected"] += 1
+                except Exception as e:  # pylint: disable=broad-except
+                    out["bad"].append(("exit-fails", f"{desc}: closing the "
+                                       f"session raised {type(e).__name__}: "
+                                       f"{str(e)[:100]}"))
+                    continue
+                fresh = Dataset(root)
+                for reader in READERS[fmt][:1]:
+                    try:
+                        got = D.iterate(fresh, "train", reader)
+                    except Exception as e:  # pylint: disable=broad-except
+                        out["bad"].append(
+                            ("undecodable", f"{desc}: reader {reader} fails: "
+                             f"{type(e).__name__}: {str(e)[:100]}"))
+                        continue
+                    if len(got) != len(kept):
+                        out["bad"].append(
+                            ("count", f"{desc}: reader {reader} yields "
+                             f"{len(got)} examples, {len(kept)} writes were "
+                             f"accepted"))
+                        continue
+                    for (kind, v), ex in zip(kept, got):
+                        r = np.asarray(ex["a"])
+                        if r.shape != ():
+                            r = r.reshape(-1)[:1].reshape(())
+                        if kind == "ok":
+                            if r.astype(dtype).tobytes() != np.asarray(
+                                    v).astype(dtype).tobytes():
+                                out["bad"].append(
+                                    ("neighbour-changed",
+                                     f"{desc}: a valid neighbour reads back "
+                                     f"as {r.item()!r}, written {v!r}"))
+                        elif fmt == "fb" and isinstance(
+                                v, (int, float, np.number, np.ndarray)):
+                            # the format enforces the dtype: an accepted
+                            # value is stored exactly
+                            w = v.item() if hasattr(v, "item") else v
+                            same = (r.item() == w) or (w != w and
+                                                       r.item() != r.item())
+                            if not same:
+                                out["bad"].append(
+                                    ("accepted-altered",
+                                     f"{desc}: the write was accepted and "
+                                     f"reads back as {r.item()!r}"))
+                shutil.rmtree(root, ignore_errors=True)
+        return out
+    except Exception as e:  # pylint: disable=broad-except
+        out["harness"] = f"{type(e).__name__}: {e} " + traceback.format_exc(
+        )[-300:]
+        return out
+    finally:
+        shutil.rmtree(box, ignore_errors=True)
+
+
+def run_scalars(ctx):
+    nums = [d for d in DTYPES if d not in ("str", "bytes")]
+    tfrec_ok = ("int8", "uint8", "int32", "int64", "float16", "float32")
+    cases = [(f, d) for f in ("fb", "npz", "tfrec") for d in nums
+             if f != "tfrec" or d in tfrec_ok]
+    tot = acc = rej = 0
+    with core.pool() as ex:
+        for r in ex.map(scalar_case, cases):
+            if r.get("harness"):
+                ctx.harness_error(str(r))
+                continue
+            tot += 2 * len(scalar_objects())
+            acc += r["accepted"]
+            rej += r["rejected"]
+            ctx.add(states=2 * len(scalar_objects()),
+                    transitions=r["cases"] + r["accepted"] + r["rejected"],
+                    traces_validated_against_impl=2 * len(scalar_objects()))
+            for sym, msg in r["bad"]:
+                ctx.violation(
+                    {"engine": "scalars", "fmt": r["fmt"],
+                     "dtype": r["dtype"], "symptom": sym},
+                    f"{r['fmt']} rank-0 attribute dtype={r['dtype']}: {msg}",
+                    {"kind": "scalars", "fmt": r["fmt"],
+                     "dtype": r["dtype"]})
+    ctx.part("rank-0 attribute x scalar objects (Python / NumPy scalars and "
+             "0-d arrays of every kind) x position in the shard",
+             sequences=tot, accepted=acc, rejected=rej)
+
+
 def run_decl(ctx):
     shapes = [(), (2,), (2, 2)]
     cases = [(f, d, s) for f in ("fb", "npz", "tfrec") for d in DTYPES
@@ -163,6 +305,7 @@ def run_decl(ctx):
 def run(ctx):
     wseq.run_plans(ctx, TAGS, plans(ctx.tier))
     run_decl(ctx)
+    run_scalars(ctx)
     ctx.cov["explanation"] = (
         "all sequences (depth per plan) of write_example calls over 16 "
         "kinds of call (valid, list containers, wrong shape at first / "
@@ -185,5 +328,9 @@ def replay(case):
     if case.get("kind") == "decl":
         core.import_sedpack_quietly()
         r = decl_case((case["fmt"], case["dtype"], tuple(case["shape"])))
+        return [m for _, m in r["bad"]]
+    if case.get("kind") == "scalars":
+        core.import_sedpack_quietly()
+        r = scalar_case((case["fmt"], case["dtype"]))
         return [m for _, m in r["bad"]]
     return wseq.replay_seq(case, TAGS)
